@@ -60,6 +60,8 @@ structure Resp (D : Deflater) where
   trace : Trace := []
   /-- ghost: every byte written to `out()`, in order -/
   written : Bytes := []
+  /-- ghost: the header set handed to the connection by `out()` (not in the raw modes) -/
+  sentHeaders : Option Headers := none
 
 def sContentType : Bytes := b [67,111,110,116,101,110,116,45,84,121,112,101]
 def sContentEncoding : Bytes := b [67,111,110,116,101,110,116,45,69,110,99,111,100,105,110,103]
@@ -85,34 +87,38 @@ def Resp.intoDev (r : Resp D) (acts : List Act) : Resp D :=
   let x := r.dev.apply traceIf r.trace acts
   { r with dev := x.1, trace := x.2 }
 
+/-- one `sputn` / `pubsync` arriving at `copy_buf` -/
+def Copy.applyAct (k : Copy) : Act → Copy × List Act
+  | .put bs => k.xsputn bs
+  | .sync => k.sync
+
 /-- push actions of `gzip_buf` into whatever is below it -/
 def Resp.belowGz (r : Resp D) : List Act → Resp D
   | [] => r
   | a :: rest =>
     match r.copy with
     | none => (r.intoDev [a]).belowGz rest
-    | some k =>
-      let x := match a with
-        | .put bs => k.xsputn bs
-        | .sync => k.sync
-      ({ r with copy := some x.1 }.intoDev x.2).belowGz rest
+    | some k => ({ r with copy := some (k.applyAct a).1 }.intoDev (k.applyAct a).2).belowGz rest
 
-/-- `response::out()` on first use: device by io mode, `need_gzip()` and `content_encoding("gzip")`,
-headers handed to the connection (not in the raw modes), then `copy_buf`, then `gzip_buf` on top -/
+/-- `response::out()` on first use: device by io mode and requested size; `need_gzip()` decides and
+`content_encoding("gzip")` is set *before* the headers are handed to the connection (not in the raw
+modes); then `copy_buf` is put on the device, then `gzip_buf` on top -/
 def Resp.requestStream (r : Resp D) : Resp D :=
   if r.ostreamRequested then r
   else
     let async := r.mode.isAsync
     let dflt := if async then r.cfg.asyncOutputBuffer else r.cfg.outputBuffer
     let bsize := if r.requiredBufferSize = -1 then dflt else r.requiredBufferSize.toNat
-    let dev : Dev := ({ isAsync := async, fullBuffering := if async then r.asyncFullBuffering else true,
-                        rawMode := r.mode.isRaw } : Dev).open bsize
-    let r := { r with dev, ostreamRequested := true }
     let gzip := r.needGzip
-    let r := if gzip then { r with headers := r.headers.set sContentEncoding sGzip } else r
-    let r := if r.mode.isRaw then r else { r with trace := traceIf.setHeaders r.trace r.headers }
-    let r := if r.copyToCache then { r with copy := some {} } else r
-    if gzip then { r with gz := some (Gz.open D r.cfg.gzipBuffer) } else r
+    let hdrs := if gzip then r.headers.set sContentEncoding sGzip else r.headers
+    { r with
+      dev := Dev.fresh async (if async then r.asyncFullBuffering else true) r.mode.isRaw bsize
+      ostreamRequested := true
+      headers := hdrs
+      trace := if r.mode.isRaw then r.trace else traceIf.setHeaders r.trace hdrs
+      sentHeaders := if r.mode.isRaw then r.sentHeaders else some hdrs
+      copy := if r.copyToCache then some {} else r.copy
+      gz := if gzip then some (Gz.open D r.cfg.gzipBuffer) else r.gz }
 
 /-- the top-most buffer takes `s` (`std::ostream::write` after `out()`) -/
 def Resp.push (r : Resp D) (s : Bytes) : Resp D :=
@@ -169,19 +175,25 @@ def Resp.setFullBuffering (r : Resp D) (v : Bool) : Resp D :=
     { r with dev := x.1, trace := x.2, asyncFullBuffering := v }
   else { r with asyncFullBuffering := v }
 
+/-- `gzip_buf::close()` (if there is one): `Z_FINISH`, what comes out goes down the chain -/
+def Resp.closeGz (r : Resp D) : Resp D :=
+  match r.gz with
+  | some g => ({ r with gz := some g.close.1 } : Resp D).belowGz g.close.2
+  | none => r
+
+/-- `copy_buf::close()` (if there is one): the rest of its buffer is passed on, then it is detached -/
+def Resp.closeCopy (r : Resp D) : Resp D :=
+  match r.copy with
+  | some k => ({ r with copy := some k.close.1 } : Resp D).intoDev k.close.2
+  | none => r
+
+/-- `basic_device::close()`: final flush with the eof mark -/
+def Resp.closeDev (r : Resp D) : Resp D :=
+  { r with dev := (r.dev.close traceIf r.trace).1, trace := (r.dev.close traceIf r.trace).2, finalized := true }
+
 /-- `response::finalize`: `out()`, then `close()` on every buffer from the top down -/
 def Resp.finalize (r : Resp D) : Resp D :=
-  if r.finalized then r
-  else
-    let r := r.requestStream
-    let r := match r.gz with
-      | some g => let x := g.close; { r with gz := some x.1 }.belowGz x.2
-      | none => r
-    let r := match r.copy with
-      | some k => let x := k.close; { r with copy := some x.1 }.intoDev x.2
-      | none => r
-    let x := r.dev.close traceIf r.trace
-    { r with dev := x.1, trace := x.2, finalized := true }
+  if r.finalized then r else r.requestStream.closeGz.closeCopy.closeDev
 
 /-- `connection::async_write_response`: `flush_async_chunk`, then (if that did not fail) the connection
 decides — by `has_pending()` — whether an `async_write` is needed (`WEv.asyncFlush`) -/
